@@ -271,7 +271,7 @@ def verdictPos (F : Feat) (p : HPt) (rIn2 : Option Q) (rOut2 m2 fJoin2 fCap2 : Q
 /-- negative distance on polygons (`F = featPolys`): inside and farther than `rOut` from every ring → in;
 outside, or within `rIn` of a ring (`nearOut`, only sound when the polygons do not overlap) → out -/
 def verdictNeg (F : Feat) (p : HPt) (rIn2 : Option Q) (rOut2 m2 fJoin2 : Q) (nearOut : Bool) : Verdict :=
-  if F.onBoundary p then .mustOut
+  if F.onBoundary p then (if nearOut then .mustOut else .free)     -- a ring of one polygon may run inside another one
   else if !F.inside p then .mustOut
   else if F.clear p rOut2 m2 fJoin2 ⟨1, 1⟩ then .mustIn
   else if nearOut && (match rIn2 with | some r => F.covered p r m2 | none => false) then .mustOut
